@@ -35,8 +35,17 @@
 use std::isize;
 use std::marker::PhantomData;
 use std::ops::Deref;
+#[cfg(sighook_verif)]
+use sighook_shim::sync::atomic::{self, AtomicPtr, AtomicUsize, Ordering};
+#[cfg(not(sighook_verif))]
 use std::sync::atomic::{self, AtomicPtr, AtomicUsize, Ordering};
+#[cfg(sighook_verif)]
+use sighook_shim::sync::{Mutex, MutexGuard, PoisonError};
+#[cfg(not(sighook_verif))]
 use std::sync::{Mutex, MutexGuard, PoisonError};
+#[cfg(sighook_verif)]
+use sighook_shim::thread;
+#[cfg(not(sighook_verif))]
 use std::thread;
 
 use libc;
@@ -58,6 +67,8 @@ impl<'a, T> Deref for ReadGuard<'a, T> {
 
 impl<'a, T> Drop for ReadGuard<'a, T> {
     fn drop(&mut self) {
+        #[cfg(sighook_verif)]
+        ::sighook_shim::hook::read_close(self.data as *const T as usize);
         // We effectively unlock; Release would be enough.
         self.lock.fetch_sub(1, Ordering::SeqCst);
     }
@@ -73,6 +84,8 @@ impl<'a, T> WriteGuard<'a, T> {
     pub(crate) fn store(&mut self, val: T) {
         // Move to the heap and convert to raw pointer for AtomicPtr.
         let new = Box::into_raw(Box::new(val));
+        #[cfg(sighook_verif)]
+        ::sighook_shim::hook::snap_alloc(new as usize);
 
         self.data = unsafe { &*new };
 
@@ -83,6 +96,8 @@ impl<'a, T> WriteGuard<'a, T> {
         // Now we make sure there's no reader having the old data.
         self.lock.write_barrier();
 
+        #[cfg(sighook_verif)]
+        ::sighook_shim::hook::snap_free(old as usize);
         drop(unsafe { Box::from_raw(old) });
     }
 }
@@ -113,6 +128,8 @@ impl<T> HalfLock<T> {
         // Move to the heap so we can safely point there. Then convert to raw pointer as AtomicPtr
         // operates on raw pointers. The AtomicPtr effectively acts like Box for us semantically.
         let ptr = Box::into_raw(Box::new(data));
+        #[cfg(sighook_verif)]
+        ::sighook_shim::hook::snap_alloc(ptr as usize);
         Self {
             _t: PhantomData,
             data: AtomicPtr::new(ptr),
@@ -148,6 +165,8 @@ impl<T> HalfLock<T> {
         // Acquire should be enough; we need to "download" the data, paired with the swap on the
         // same pointer.
         let data = self.data.load(Ordering::SeqCst);
+        #[cfg(sighook_verif)]
+        ::sighook_shim::hook::read_open(data as usize);
         // Safe:
         // * It did point to valid data when put in.
         // * Protected by lock, so still valid.
@@ -224,6 +243,8 @@ impl<T> Drop for HalfLock<T> {
         //
         // unsafe: the pointer in there is always valid, we just take the last instance out.
         unsafe {
+            #[cfg(sighook_verif)]
+            ::sighook_shim::hook::snap_free(self.data.load(Ordering::SeqCst) as usize);
             // Acquire should be enough.
             let data = Box::from_raw(self.data.load(Ordering::SeqCst));
             drop(data);
